@@ -24,7 +24,7 @@ type SpyBackend struct {
 	Strength []int      // per game index; nil = leave the shuffled deck alone
 	TieAll   bool
 	Opts     *pokerface.GameOptions
-	OnCall   func(kind string, ord int, ok bool, in, out string, gs *pokerface.GameState, opts *pokerface.GameOptions)
+	OnCall   func(kind string, ord int, ok bool, in, out string, gs *pokerface.GameState, opts *pokerface.GameOptions, amt int64)
 }
 
 func NewSpy() *SpyBackend {
@@ -42,7 +42,11 @@ func gsDigest(gs *pokerface.GameState) string {
 	return hex.EncodeToString(h[:6])
 }
 
-func (s *SpyBackend) step(kind string, in *pokerface.GameState, f func() (*pokerface.GameState, error)) (*pokerface.GameState, error) {
+func (s *SpyBackend) step(kind string, in *pokerface.GameState, f func() (*pokerface.GameState, error), amts ...int64) (*pokerface.GameState, error) {
+	amt := int64(0)
+	if len(amts) > 0 {
+		amt = amts[0]
+	}
 	s.mu.Lock()
 	if kind == "create" {
 		s.ord = 0
@@ -65,7 +69,7 @@ func (s *SpyBackend) step(kind string, in *pokerface.GameState, f func() (*poker
 	ind := gsDigest(in)
 	if fail {
 		if cb != nil {
-			cb(kind, ord, false, ind, "", nil, nil)
+			cb(kind, ord, false, ind, "", nil, nil, amt)
 		}
 		return nil, ErrInjected
 	}
@@ -75,7 +79,7 @@ func (s *SpyBackend) step(kind string, in *pokerface.GameState, f func() (*poker
 		s.ord--
 		s.mu.Unlock()
 		if cb != nil {
-			cb(kind, ord, false, ind, "err:"+err.Error(), nil, nil)
+			cb(kind, ord, false, ind, "err:"+err.Error(), nil, nil, amt)
 		}
 		return out, err
 	}
@@ -84,7 +88,7 @@ func (s *SpyBackend) step(kind string, in *pokerface.GameState, f func() (*poker
 		if kind == "create" {
 			o = s.Opts
 		}
-		cb(kind, ord, true, ind, gsDigest(out), out, o)
+		cb(kind, ord, true, ind, gsDigest(out), out, o, amt)
 	}
 	return out, nil
 }
@@ -118,7 +122,7 @@ func (s *SpyBackend) Next(g *pokerface.GameState) (*pokerface.GameState, error) 
 	return s.step("next", g, func() (*pokerface.GameState, error) { return s.n.Next(g) })
 }
 func (s *SpyBackend) Pay(g *pokerface.GameState, c int64) (*pokerface.GameState, error) {
-	return s.step("pay", g, func() (*pokerface.GameState, error) { return s.n.Pay(g, c) })
+	return s.step("pay", g, func() (*pokerface.GameState, error) { return s.n.Pay(g, c) }, c)
 }
 func (s *SpyBackend) Fold(g *pokerface.GameState) (*pokerface.GameState, error) {
 	return s.step("fold", g, func() (*pokerface.GameState, error) { return s.n.Fold(g) })
@@ -133,10 +137,10 @@ func (s *SpyBackend) Allin(g *pokerface.GameState) (*pokerface.GameState, error)
 	return s.step("allin", g, func() (*pokerface.GameState, error) { return s.n.Allin(g) })
 }
 func (s *SpyBackend) Bet(g *pokerface.GameState, c int64) (*pokerface.GameState, error) {
-	return s.step("bet", g, func() (*pokerface.GameState, error) { return s.n.Bet(g, c) })
+	return s.step("bet", g, func() (*pokerface.GameState, error) { return s.n.Bet(g, c) }, c)
 }
 func (s *SpyBackend) Raise(g *pokerface.GameState, c int64) (*pokerface.GameState, error) {
-	return s.step("raise", g, func() (*pokerface.GameState, error) { return s.n.Raise(g, c) })
+	return s.step("raise", g, func() (*pokerface.GameState, error) { return s.n.Raise(g, c) }, c)
 }
 func (s *SpyBackend) Pass(g *pokerface.GameState) (*pokerface.GameState, error) {
 	return s.step("pass", g, func() (*pokerface.GameState, error) { return s.n.Pass(g) })
